@@ -1,4 +1,4 @@
-import FiberModel.C13.Decide
+import FiberModel.C13.Rank
 /-
 C13 — property theorems (only). All of them quantify over every configuration with
 `expiration ≥ 1` (configDefault guarantees it), every assignment of requests to threads (unboundedly
@@ -7,6 +7,10 @@ interleaving of the atomic steps of the threads with clock ticks of any length a
 collections (`(sys cfg).Reach` / `(psys cfg).Reach`; `psys` is `sys` run in lock-step with the
 specification's abstract counters, `psys_run_g` shows the ghost part does not influence the model).
 The weight function of the sliding window (`cfg.wt`, float arithmetic in Go) is arbitrary.
+
+The second half of the file (from `decision_counts_real_requests` on) states the property without
+the ghost state: over reachable states of the model itself (`(sys cfg).Reach (init reqs t0) g`) and
+the real sets of requests (`counted`, `wexp` = end of the window a request was counted in).
 -/
 namespace C13
 open Conc Spec
@@ -55,14 +59,16 @@ example : ∃ g, (sys ⟨false, false, 2, false, false, fun _ _ _ => 0⟩).Reach
 /-- **decision_is_spec_decision.** Whenever a request is counted (its thread reads the clock inside
 the critical section), under any schedule: the `remaining` the handler computes is the request's own
 MaxFunc limit minus the load of the abstract window after adding the request, the `Retry-After`
-value is the time until that window ends (and is positive), and the request is now a member of the
-abstract window of its key — of no other. -/
+value is the time until that window ends (and is positive), the second of the clock read lies inside
+that window (`wend − expiration ≤ now < wend`), and the request is now a member of the abstract window
+of its key — of no other. -/
 theorem decision_is_spec_decision (cfg : Cfg) (hE : 1 ≤ cfg.expiration) (reqs : Tid → Req) (t0 : Nat) {p : PS}
     (h : (psys cfg).Reach (pinit reqs t0) p) (t : Tid) (hpc : (p.g.threads t).pc = .atTs) :
     let w := hit cfg (p.s (reqs t).key) p.g.now t
     let e' := upd cfg (p.g.threads t).e p.g.now
     (reqs t).max - rate cfg e' p.g.now = (reqs t).max - load cfg w p.g.now ∧
-    e'.exp - p.g.now = retryAfter w p.g.now ∧ p.g.now < w.wend ∧ t ∈ w.cur := by
+    e'.exp - p.g.now = retryAfter w p.g.now ∧ p.g.now < w.wend ∧ w.wend ≤ p.g.now + cfg.expiration ∧
+    t ∈ w.cur := by
   have hf := full_reach cfg hE reqs t0 h
   have hreq := hf.inv.req t
   have hl := hf.inv.loc t (.inl hpc)
@@ -71,8 +77,10 @@ theorem decision_is_spec_decision (cfg : Cfg) (hE : 1 ≤ cfg.expiration) (reqs 
   show (reqs t).max - rate cfg (upd cfg (p.g.threads t).e p.g.now) p.g.now =
       (reqs t).max - load cfg (hit cfg (p.s (reqs t).key) p.g.now t) p.g.now ∧
     (upd cfg (p.g.threads t).e p.g.now).exp - p.g.now = retryAfter (hit cfg (p.s (reqs t).key) p.g.now t) p.g.now ∧
-    p.g.now < (hit cfg (p.s (reqs t).key) p.g.now t).wend ∧ t ∈ (hit cfg (p.s (reqs t).key) p.g.now t).cur
-  refine ⟨by rw [rate_eq_load cfg hu3 hu4 hu5], by simp only [retryAfter]; omega, by omega, ?_⟩
+    p.g.now < (hit cfg (p.s (reqs t).key) p.g.now t).wend ∧
+    (hit cfg (p.s (reqs t).key) p.g.now t).wend ≤ p.g.now + cfg.expiration ∧
+    t ∈ (hit cfg (p.s (reqs t).key) p.g.now t).cur
+  refine ⟨by rw [rate_eq_load cfg hu3 hu4 hu5], by simp only [retryAfter]; omega, by omega, by omega, ?_⟩
   rcases hit_shape cfg (p.s (reqs t).key) p.g.now t with ⟨w0, _, _, hsh⟩ | ⟨_, w0, _, _, _, hsh⟩ | ⟨hsh, _⟩ <;>
     (rw [hsh]; simp)
 
@@ -282,6 +290,200 @@ after a tick past the window end everything starts again -/
 example : let p := (psys exCfg).run (pinit exReqs 100) (runT 2 12 ++ runT 0 7 ++ [.tick 2] ++ runT 1 7)
     (p.g.threads 2).pc = .doneOk ∧ (p.g.threads 0).pc = .doneOk ∧ (p.g.threads 1).pc = .doneOk := by decide
 
+/-- sliding window, expiration 4, limit 2, weight `⌊prev·reset/expiration⌋`: two requests in the window
+ending at 104; at second 105 (3 s before the next window ends) the previous window weighs
+`⌊2·3/4⌋ = 1`: the third request has rate 1 + 1 = 2 ≤ 2 and passes with `remaining = 0`, the fourth has
+rate 1 + 2 = 3 > 2 and is rejected with `Retry-After: 3` -/
+def exCfgS : Cfg := ⟨true, false, 4, false, false, fun p r e => p * (r : Int) / (e : Int)⟩
+
+set_option maxRecDepth 8000 in
+example : let p := (psys exCfgS).run (pinit (fun _ => ⟨0, 2, 200, false⟩) 100) (runT 0 7 ++ runT 1 7 ++ [.tick 5] ++ runT 2 7 ++ runT 3 6)
+    (p.g.threads 2).pc = .doneOk ∧ (p.g.threads 2).remaining = 0 ∧
+    (p.g.threads 3).pc = .rejected ∧ (p.g.threads 3).reset = 3 := by decide
+
 end Examples
+
+/-! ## the property over the model's own state (no ghost state in the statements) -/
+
+/-- **decision_counts_real_requests** (both algorithms, every schedule, every backend variant). When a
+request is about to leave its critical section (`atUnlock`: the item is written, the next step unlocks
+and either answers 429 or calls the handler), the `remaining` it computed is the limit MaxFunc
+returned for THIS request minus the number of real requests counted against its key:
+`cur` = the requests of the same key counted in the same window (window end `wexp`) whose hit has not
+been taken back by a skip option — the request itself included —, `prev` = those of the window before
+(sliding only); fixed: `|cur|`, sliding: `wt(|prev|, resetInSec, expiration) + |cur|`. Requests of
+other keys do not occur. `resetInSec` (the `Retry-After` / `X-RateLimit-Reset` value) lies in
+`1 … expiration`, and the next step answers 429 exactly when `remaining < 0`. -/
+theorem decision_counts_real_requests (cfg : Cfg) (hE : 1 ≤ cfg.expiration) (reqs : Tid → Req) (t0 : Nat) {g : G}
+    (h : (sys cfg).Reach (init reqs t0) g) (t : Tid) (hpc : (g.threads t).pc = .atUnlock) :
+    ∃ cur prev : List Tid, cur.Nodup ∧ prev.Nodup ∧ t ∈ cur ∧
+      (∀ t', t' ∈ cur ↔ (counted cfg (g.threads t') = true ∧ (reqs t').key = (reqs t).key ∧
+                          (g.threads t').wexp = (g.threads t).wexp)) ∧
+      (∀ t', t' ∈ prev ↔ (cfg.sliding = true ∧ counted cfg (g.threads t') = true ∧ (reqs t').key = (reqs t).key ∧
+                           (g.threads t').wexp + cfg.expiration = (g.threads t).wexp)) ∧
+      (g.threads t).remaining = (reqs t).max -
+        (if cfg.sliding then cfg.wt prev.length (g.threads t).reset cfg.expiration + cur.length else cur.length) ∧
+      1 ≤ (g.threads t).reset ∧ (g.threads t).reset ≤ cfg.expiration ∧
+      ∃ g', stepThr cfg g t = some g' ∧
+        (g'.threads t).pc = (if (g.threads t).remaining < 0 then Pc.rejected else Pc.atHandler) := by
+  obtain ⟨p, hp, rfl⟩ := reach_lift cfg reqs t0 h
+  have ha := all_reach cfg hE reqs t0 hp
+  obtain ⟨w, hw1, hw2, hw3⟩ := ha.opn t (.inr hpc)
+  obtain ⟨n1, n2, m1, m2⟩ := ha.inv.mem _ w hw1
+  obtain ⟨r1, r2, _⟩ := ha.rst t (by simp [hpc])
+  have hreq := ha.inv.req t
+  refine ⟨w.cur, w.prev, n1, n2, ?_, fun t' => ?_, fun t' => ?_, ?_, r1, r2, ?_⟩
+  · exact (m1 t).2 ⟨by simp [counted, unhitDone, hpc], rfl, hw2.symm⟩
+  · rw [m1 t', ha.inv.req t', hreq, hw2]
+  · rw [m2 t', ha.inv.req t', hreq, hw2]
+  · rw [hw3, hreq]; rfl
+  · simp [stepThr, hpc]
+
+/-- **fixed_admits_at_most_max_per_window** (fixed window, every schedule, every tick sequence, any
+number of requests; open and closed windows alike). If no limit MaxFunc returns for a request of key
+`k` exceeds `M` (other keys may have any limits), then in every reachable state, for every window
+(identified by its end `W`), the requests of `k` counted in that window that have passed the limiter and whose hit has not been taken back by a skip
+option are at most `M`: any duplicate-free list of such requests has length ≤ `M`. -/
+theorem fixed_admits_at_most_max_per_window (cfg : Cfg) (hfix : cfg.sliding = false) (hE : 1 ≤ cfg.expiration)
+    (reqs : Tid → Req) (t0 : Nat) (M : Nat) (k : Key) (hM : ∀ t, (reqs t).key = k → (reqs t).max ≤ (M : Int)) {g : G}
+    (h : (sys cfg).Reach (init reqs t0) g) (W : Nat) (l : List Tid) (hnd : l.Nodup)
+    (hl : ∀ t ∈ l, (reqs t).key = k ∧ (g.threads t).wexp = W ∧ admittedPc (g.threads t).pc = true ∧
+                   counted cfg (g.threads t) = true) :
+    l.length ≤ M := by
+  obtain ⟨p, hp, rfl⟩ := reach_lift cfg reqs t0 h
+  have ha := all_reach cfg hE reqs t0 hp
+  refine ibound_reach cfg hfix hE reqs t0 M k hM hp W l hnd (fun t ht => ?_)
+  obtain ⟨h1, h2, h3, h4⟩ := hl t ht
+  exact ⟨by rw [ha.inv.req t]; exact h1, h2, h3, h4⟩
+
+/-- **fixed_handler_runs_at_most_max** (fixed window without skip options): per key and window at most
+`M` requests that went through the limiter have had the protected handler executed (`ran`). -/
+theorem fixed_handler_runs_at_most_max (cfg : Cfg) (hfix : cfg.sliding = false) (hns : noSkip cfg)
+    (hE : 1 ≤ cfg.expiration) (reqs : Tid → Req) (t0 : Nat) (M : Nat) (k : Key)
+    (hM : ∀ t, (reqs t).key = k → (reqs t).max ≤ (M : Int)) {g : G}
+    (h : (sys cfg).Reach (init reqs t0) g) (W : Nat) (l : List Tid) (hnd : l.Nodup)
+    (hl : ∀ t ∈ l, (reqs t).key = k ∧ (g.threads t).wexp = W ∧ (g.threads t).ran = true ∧
+                   (reqs t).next = false ∧ (reqs t).max ≠ 0) :
+    l.length ≤ M := by
+  refine fixed_admits_at_most_max_per_window cfg hfix hE reqs t0 M k hM h W l hnd (fun t ht => ?_)
+  obtain ⟨h1, h2, h3, h4, h5⟩ := hl t ht
+  obtain ⟨hr1, hr2, _⟩ := iran_reach cfg reqs t0 h t
+  obtain ⟨p, hp, rfl⟩ := reach_lift cfg reqs t0 h
+  have ha := all_reach cfg hE reqs t0 hp
+  have hreq := ha.inv.req t
+  have hadm : admittedPc (p.g.threads t).pc = true := by
+    rcases hr1 h3 with hb | hb
+    · have := hr2 (.inr hb); rw [hreq] at this; simp [h4, h5] at this
+    · exact hb.1
+  refine ⟨h1, h2, hadm, ?_⟩
+  have hsec := ha.inv.sec t
+  have hsk := skipCond_noSkip hns (p.g.threads t).req.status
+  revert hadm hsec
+  cases hpc : (p.g.threads t).pc <;> simp [admittedPc, counted, unhitDone, hpc, hsk]
+
+/-- **handler_runs_iff_passed.** In every reachable state: the protected handler has been executed for
+every request answered through the limiter or around it (`doneOk`, `doneBypass`), it has not been
+executed for a rejected request, and a request bypasses the limiter only if `Next` returned true or
+MaxFunc returned 0 for it. -/
+theorem handler_runs_iff_passed (cfg : Cfg) (reqs : Tid → Req) (t0 : Nat) {g : G}
+    (h : (sys cfg).Reach (init reqs t0) g) (t : Tid) :
+    (((g.threads t).pc = .doneOk ∨ (g.threads t).pc = .doneBypass) → (g.threads t).ran = true) ∧
+    ((g.threads t).pc = .rejected → (g.threads t).ran = false) ∧
+    ((g.threads t).pc = .doneBypass → ((g.threads t).req.next = true ∨ (g.threads t).req.max = 0)) := by
+  obtain ⟨h1, h2, h3⟩ := iran_reach cfg reqs t0 h t
+  refine ⟨fun hp => h3 (by rcases hp with hp | hp <;> simp [hp]), fun hp => ?_, fun hp => h2 (.inr hp)⟩
+  cases hr : (g.threads t).ran with
+  | false => rfl
+  | true => have := h1 hr; simp [hp, admittedPc] at this
+
+/-- **retry_after_in_range.** The `Retry-After` of a rejected request is between 1 and `expiration`
+seconds (and the window it refers to ends at `wexp`, the clock read having happened at
+`wexp − Retry-After`, see `decision_is_spec_decision`). -/
+theorem retry_after_in_range (cfg : Cfg) (hE : 1 ≤ cfg.expiration) (reqs : Tid → Req) (t0 : Nat) {g : G}
+    (h : (sys cfg).Reach (init reqs t0) g) (t : Tid) (hr : (g.threads t).pc = .rejected) :
+    1 ≤ (g.threads t).reset ∧ (g.threads t).reset ≤ cfg.expiration ∧
+      (g.threads t).reset ≤ (g.threads t).wexp := by
+  obtain ⟨p, hp, rfl⟩ := reach_lift cfg reqs t0 h
+  exact (all_reach cfg hE reqs t0 hp).rst t (by simp [hr])
+
+/-- the request has been answered -/
+def finalPc : Pc → Bool
+  | .rejected | .doneOk | .doneBypass => true
+  | _ => false
+
+/-- **no_deadlock.** In every reachable state in which some request is unanswered, a thread can move:
+the holder of the mutex if it is taken (it is inside a critical section, all of whose steps are always
+enabled), the unanswered request itself otherwise. No request waits for the limiter forever under a
+fair scheduler; in particular none is "rejected" by starvation. -/
+theorem no_deadlock (cfg : Cfg) (reqs : Tid → Req) (t0 : Nat) {g : G}
+    (h : (sys cfg).Reach (init reqs t0) g) (t : Tid) (hlive : finalPc (g.threads t).pc = false) :
+    ∃ t', (stepThr cfg g t').isSome = true ∧ (g.mux = some t' ∨ (g.mux = none ∧ t' = t)) := by
+  have hex : Excl g :=
+    Conc.inv_reach (sys cfg) Excl (fun _ _ _ hi hs => excl_step cfg hi hs) (excl_init reqs t0) h
+  cases hm : g.mux with
+  | some t' =>
+    refine ⟨t', ?_, .inl rfl⟩
+    have hc := (hex t').2 hm
+    revert hc
+    cases hpc : (g.threads t').pc <;> simp [stepThr, hpc, crit]
+    split <;> simp
+  | none =>
+    refine ⟨t, ?_, .inr ⟨rfl, rfl⟩⟩
+    revert hlive
+    cases hpc : (g.threads t).pc <;> simp [stepThr, hpc, finalPc, hm]
+    · split <;> simp
+    · split <;> simp
+    · split <;> simp
+
+/-- **fixed_rejected_only_after_max_passed** (fixed window, no skip options, key `k` has the constant
+limit `M`): a request of `k` is answered 429 only if `M` OTHER requests of `k` counted in the very same
+window have passed the limiter — the window's budget is really used up, not merely the counter. -/
+theorem fixed_rejected_only_after_max_passed (cfg : Cfg) (hfix : cfg.sliding = false) (hns : noSkip cfg)
+    (hE : 1 ≤ cfg.expiration) (reqs : Tid → Req) (t0 : Nat) (M : Nat) (k : Key)
+    (hM : ∀ t, (reqs t).key = k → (reqs t).max = (M : Int)) {g : G}
+    (h : (sys cfg).Reach (init reqs t0) g) (t : Tid) (hk : (reqs t).key = k) (hr : (g.threads t).pc = .rejected) :
+    ∃ l : List Tid, l.Nodup ∧ l.length = M ∧ ∀ t' ∈ l, t' ≠ t ∧ (reqs t').key = k ∧
+      (g.threads t').wexp = (g.threads t).wexp ∧ admittedPc (g.threads t').pc = true := by
+  obtain ⟨p, hp, rfl⟩ := reach_lift cfg reqs t0 h
+  have ha := all_reach cfg hE reqs t0 hp
+  obtain ⟨x, h1, _, _, _, h5, _, _⟩ := ha.dec t (by simp [hr])
+  obtain ⟨l, hl1, hl2, hl3⟩ := irej_reach cfg hfix hns hE reqs t0 M k hM hp t (by rw [ha.inv.req t]; exact hk)
+    (by simp [hr]) x h1 (h5 hr)
+  refine ⟨l, hl1, hl2, fun t' ht' => ?_⟩
+  obtain ⟨g1, g2, g3, g4⟩ := hl3 t' ht'
+  exact ⟨g1, by rw [← ha.inv.req t']; exact g2, g3, g4⟩
+
+
+/-! ### non-vacuity of the ghost-free theorems -/
+
+section Examples2
+
+def exCfg2 : Cfg := ⟨false, false, 2, false, false, fun _ _ _ => 0⟩
+def exReqs2 : Tid → Req := fun _ => ⟨0, 1, 200, false⟩
+
+/-- `atUnlock` is reachable (hypothesis of `decision_counts_real_requests`) -/
+example : (((sys exCfg2).run (init exReqs2 100) (runT 0 5)).threads 0).pc = .atUnlock := by decide
+
+/-- two requests, limit 1: request 0 holds the one slot of the window ending at 102, request 1 is
+rejected with Retry-After 2 (hypotheses of `fixed_admits_at_most_max_per_window`,
+`fixed_handler_runs_at_most_max`, `retry_after_in_range`, `fixed_rejected_only_after_max_passed`) -/
+example : let g := (sys exCfg2).run (init exReqs2 100) (runT 0 7 ++ runT 1 6)
+    (g.threads 0).wexp = 102 ∧ admittedPc (g.threads 0).pc = true ∧ counted exCfg2 (g.threads 0) = true ∧
+    (g.threads 0).ran = true ∧ (g.threads 1).pc = .rejected ∧ (g.threads 1).wexp = 102 ∧ (g.threads 1).reset = 2 := by
+  decide
+
+example : noSkip exCfg2 := ⟨rfl, rfl⟩
+example : ∀ t, (exReqs2 t).key = 0 → (exReqs2 t).max = ((1 : Nat) : Int) := fun _ _ => rfl
+
+/-- a bypassing request (MaxFunc returned 0) reaches the handler although the key's budget is used up -/
+def exReqs3 : Tid → Req := fun t => if t = 2 then ⟨0, 0, 200, false⟩ else ⟨0, 1, 200, false⟩
+example : let g := (sys exCfg2).run (init exReqs3 100) (runT 0 7 ++ runT 1 6 ++ runT 2 2)
+    (g.threads 1).pc = .rejected ∧ (g.threads 2).pc = .doneBypass ∧ (g.threads 2).ran = true := by decide
+
+/-- a state with an unanswered request and a taken mutex (hypothesis of `no_deadlock`) -/
+example : let g := (sys exCfg2).run (init exReqs2 100) [.thr 0, .thr 0, .thr 1, .thr 1]
+    finalPc (g.threads 1).pc = false ∧ g.mux = some 0 := by decide
+
+end Examples2
 
 end C13
